@@ -171,7 +171,7 @@ void c16_register(void) { harness_register("c16.hist", c16_child); }
 int c16_run(const char *tier) {
 	int thorough = !strcmp(tier, "thorough");
 	uint8_t param[1] = {0}; const char *d = getenv("VERIF_DEPTH");
-	e2_spec_t s = { .harness = "c16.hist", .param = param, .nparam = 1, .nevents = E_N, .max_depth = d ? atoi(d) : (thorough ? 11 : 8), .label = "c16.hist", .evname = evname, .on_result = c16_on_result };
+	e2_spec_t s = { .harness = "c16.hist", .param = param, .nparam = 1, .nevents = E_N, .max_depth = d ? atoi(d) : (thorough ? 10 : 8), .label = "c16.hist", .evname = evname, .on_result = c16_on_result, .audit = thorough };
 	nfirst = nlater = 0;
 	e2_explore(&s);
 	long compared = 0;
